@@ -11,5 +11,5 @@ for p in "$@"; do
   echo "benign $name: check $p exit=$st $(grep -E '^VIOLATION|HARNESS|^  oracle=' "$out/check-$p.log" | head -2 | cut -c1-260 | tr '\n' ' ')"
   res="$res{\"check\":\"$p\",\"exit\":$st},"
 done
-git -C /repo checkout -q -- .
+git -C /repo checkout -q -- . ; git -C /repo reset -q --hard HEAD
 echo "{\"kind\":\"behaviour-preserving\",\"name\":\"$name\",\"checks\":[${res%,}]}" > "$out/meta.json"
